@@ -27,10 +27,26 @@ type env struct {
 	origin *lib.Origin // plain origin: echo with X-Vid, records requests
 	ca     *lib.CA
 	seq    atomic.Int64
+	gate   chan struct{} // released by the client of an event stream once it has seen the first event
+}
+
+func (e *env) handler(oc *lib.OConn, req *lib.Msg) lib.Action {
+	if strings.Contains(req.Target, "/sse") {
+		oc.Write([]byte("HTTP/1.1 200 OK\r\nContent-Type: text/event-stream\r\nX-Vid: " + req.Get1("X-Vid") + "\r\n\r\ndata: EVENT-ONE\n\n"))
+		select {
+		case <-e.gate:
+		case <-time.After(8 * time.Second):
+		}
+		oc.Write([]byte("data: EVENT-TWO\n\n"))
+		return lib.Close
+	}
+	return echo(oc, req)
 }
 
 func echo(oc *lib.OConn, req *lib.Msg) lib.Action {
-	if strings.HasPrefix(req.Target, "/hold") || strings.Contains(req.Target, "/hold") {
+	if strings.Contains(req.Target, "/hold5") {
+		time.Sleep(5 * time.Second)
+	} else if strings.Contains(req.Target, "/hold") {
 		time.Sleep(600 * time.Millisecond)
 	}
 	if strings.Contains(req.Target, "/big") {
@@ -105,33 +121,30 @@ func Run(run *lib.Run, prop string) {
 		return
 	}
 	run.Case(idx, "wiring|"+prop, nil)
-	e := &env{run: run, prop: prop, ca: lib.NewCA("verif wiring CA")}
-	e.origin = lib.MustOrigin("O", "127.0.0.1:0", nil, echo)
+	e := &env{run: run, prop: prop, ca: lib.NewCA("verif wiring CA"), gate: make(chan struct{}, 4)}
+	e.origin = lib.MustOrigin("O", "127.0.0.1:0", nil, e.handler)
 	defer e.origin.Close()
+	scenarios := map[string][]func(string) bool{
+		"C01": {e.passthrough, e.headerRules},
+		"C02": {e.passthrough, e.eventStream},
+		"C03": {e.passthrough, e.tunnelOutlivesHeaderTimeout},
+		"C04": {e.accessControl, e.timeFrame},
+		"C17": {e.accessControl},
+		"C05": {e.routing},
+		"C14": {e.routing, e.pacConcurrent},
+		"C06": {e.credentials},
+		"C07": {e.mitm},
+		"C08": {e.proxyProtocolTimeout},
+		"C11": {e.sigterm, e.shutdownTimeout},
+		"C13": {e.metrics},
+		"C18": {e.via},
+		"C20": {e.limits},
+	}
 	for _, channel := range []string{"flags", "env"} {
-		ok := false
-		switch prop {
-		case "C01", "C02", "C03":
-			ok = e.passthrough(channel)
-		case "C04", "C17":
-			ok = e.accessControl(channel)
-		case "C05", "C14":
-			ok = e.routing(channel)
-		case "C06":
-			ok = e.credentials(channel)
-		case "C07":
-			ok = e.mitm(channel)
-		case "C11":
-			ok = e.sigterm(channel)
-		case "C13":
-			ok = e.metrics(channel)
-		case "C18":
-			ok = e.via(channel)
-		case "C20":
-			ok = e.limits(channel)
-		}
-		if ok {
-			run.Count("wiring_checks", 1)
+		for _, sc := range scenarios[prop] {
+			if sc(channel) {
+				run.Count("wiring_checks", 1)
+			}
 		}
 	}
 	run.Floor("wiring_checks", 1)
@@ -141,7 +154,8 @@ func (e *env) base() map[string][]string {
 	return map[string][]string{
 		"proxy-localhost":    {"allow"},
 		"http-dial-attempts": {"1"},
-		"connect-to":         {"origin.test:80:127.0.0.1:" + e.origin.Port(), "ok.denied.test:80:127.0.0.1:" + e.origin.Port(), "direct.test:80:127.0.0.1:" + e.origin.Port()},
+		"connect-to": {"origin.test:80:127.0.0.1:" + e.origin.Port(), "ok.denied.test:80:127.0.0.1:" + e.origin.Port(), "direct.test:80:127.0.0.1:" + e.origin.Port(),
+			"origin.test:8080:127.0.0.1:" + e.origin.Port(), "both.test:80:127.0.0.1:" + e.origin.Port(), "x.test:80:127.0.0.1:" + e.origin.Port()},
 	}
 }
 
@@ -194,7 +208,7 @@ func (e *env) accessControl(ch string) bool {
 	o := e.base()
 	o["proxy-localhost"] = []string{"deny"}
 	o["basic-auth"] = []string{"wire:s3cret"}
-	o["deny-domains"] = []string{`denied\.test`, `-^ok\.denied\.test`, `(?i)^blocked\.example$`}
+	o["deny-domains"] = []string{`denied\.test`, `-^ok\.denied\.test`, `(?i)^blocked\.example$`, `^both\.test$`, `^x\.test$`, `-^both\.test$`}
 	c, err := e.child(ch, o, false)
 	if err != nil {
 		e.run.Inconclusive("wiring child: " + err.Error())
@@ -214,6 +228,8 @@ func (e *env) accessControl(ch string) bool {
 		{"denied-name-flag", "BLOCKED.example", auth, 403},
 		{"localhost", "127.0.0.1:" + e.origin.Port(), auth, 403},
 		{"excluded-from-denial", "ok.denied.test", auth, 200},
+		{"included-and-excluded-by-the-same-pattern", "both.test", auth, 200},
+		{"denied-next-to-it", "x.test", auth, 403},
 		{"allowed", "origin.test", auth, 200},
 	} {
 		vid := fmt.Sprintf("ac-%s-%d", ch, i)
@@ -286,6 +302,20 @@ func (e *env) routing(ch string) bool {
 	check(c, "pac-proxy", "origin.test", "U")
 	check(c, "pac-direct", "direct.test", "O")
 	c.Stop()
+	// PAC selecting the upstream for everything, direct-domains taking precedence over it
+	pac2 := filepath.Join(e.run.Work, "wiring-"+ch+"-all.pac")
+	os.WriteFile(pac2, []byte(`function FindProxyForURL(url, host) { return "PROXY `+up.Addr+`"; }`), 0o644)
+	o = e.base()
+	o["pac"] = []string{pac2}
+	o["direct-domains"] = []string{`^direct\.test$`}
+	c, err = e.child(ch, o, false)
+	if err != nil {
+		e.run.Inconclusive("wiring child (pac+direct): " + err.Error())
+		return false
+	}
+	check(c, "pac-all-proxy", "origin.test", "U")
+	check(c, "direct-domains-over-pac", "direct.test", "O")
+	c.Stop()
 	return ok
 }
 
@@ -304,7 +334,7 @@ func (e *env) credentials(ch string) bool {
 	defer up.Close()
 	o := e.base()
 	o["basic-auth"] = []string{"cl:clientpw"}
-	o["credentials"] = []string{"siteuser:sitepw@origin.test:80"}
+	o["credentials"] = []string{"siteuser:sitepw@origin.test:80", "siteuser:sitepw@origin.test:8080", "guest:guestpw@*:*"}
 	c, err := e.child(ch, o, false)
 	if err != nil {
 		e.run.Inconclusive("wiring child: " + err.Error())
@@ -321,8 +351,14 @@ func (e *env) credentials(ch string) bool {
 	}
 	vid2 := "cr2-" + ch
 	do(c.ProxyAddr, "GET http://direct.test/c HTTP/1.1\r\nHost: direct.test\r\nX-Vid: "+vid2+"\r\n"+clientPA+"\r\n", "GET")
-	if q := e.seen(vid2); q == nil || q.Has("Authorization") || q.Has("Proxy-Authorization") {
-		e.viol("credentials:other-site", fmt.Sprintf("[%s] a site without an entry must get no credentials: %+v", ch, q), nil)
+	if q := e.seen(vid2); q == nil || q.Get1("Authorization") != "Basic Z3Vlc3Q6Z3Vlc3Rwdw==" || q.Has("Proxy-Authorization") {
+		e.viol("credentials:other-site", fmt.Sprintf("[%s] a site without an entry of its own must get the catch-all entry (guest) and nothing else: %+v", ch, q), nil)
+		ok = false
+	}
+	vid3 := "cr8080-" + ch
+	do(c.ProxyAddr, "GET http://origin.test:8080/c HTTP/1.1\r\nHost: origin.test:8080\r\nX-Vid: "+vid3+"\r\n"+clientPA+"\r\n", "GET")
+	if q := e.seen(vid3); q == nil || q.Get1("Authorization") != "Basic c2l0ZXVzZXI6c2l0ZXB3" {
+		e.viol("credentials:second-port-of-the-site", fmt.Sprintf("[%s] origin.test:8080 has an exact entry (same account as origin.test:80), the origin saw %+v", ch, q), nil)
 		ok = false
 	}
 	c.Stop()
@@ -356,7 +392,7 @@ func (e *env) mitm(ch string) bool {
 	o["mitm"] = []string{"true"}
 	o["mitm-cacert-file"] = []string{lib.DataURI(mitmCA.CertPEM)}
 	o["mitm-cakey-file"] = []string{lib.DataURI(mitmCA.KeyPEM)}
-	o["mitm-domains"] = []string{`.*`, `-^tunnel\.test$`}
+	o["mitm-domains"] = []string{`.*`, `-\Atunnel\.test\z`}
 	o["cacert-file"] = []string{lib.DataURI(e.ca.CertPEM)}
 	c, err := e.child(ch, o, false)
 	if err != nil {
@@ -462,7 +498,12 @@ func (e *env) sigterm(ch string) bool {
 
 // metrics: the API's /metrics endpoint counts the requests served.
 func (e *env) metrics(ch string) bool {
-	c, err := e.child(ch, e.base(), true)
+	// (with a PAC file: the transport that downloads it must not take the metrics registry away)
+	pac := filepath.Join(e.run.Work, "wiring-metrics-"+ch+".pac")
+	os.WriteFile(pac, []byte(`function FindProxyForURL(url, host) { return "DIRECT"; }`), 0o644)
+	o := e.base()
+	o["pac"] = []string{pac}
+	c, err := e.child(ch, o, true)
 	if err != nil {
 		e.run.Inconclusive("wiring child: " + err.Error())
 		return false
@@ -486,6 +527,21 @@ func (e *env) metrics(ch string) bool {
 		if strings.HasPrefix(line, "forwarder_http_requests_in_flight{") && strings.Contains(line, `method="GET"`) {
 			fmt.Sscanf(line[strings.LastIndex(line, " ")+1:], "%g", &inflight)
 		}
+	}
+	var dialed float64 = -1
+	for _, line := range strings.Split(string(m.Body), "\n") {
+		if strings.HasPrefix(line, "forwarder_dialer_cx_total{") {
+			var v float64
+			fmt.Sscanf(line[strings.LastIndex(line, " ")+1:], "%g", &v)
+			if dialed < 0 {
+				dialed = 0
+			}
+			dialed += v
+		}
+	}
+	if dialed < 1 {
+		e.viol("metrics:dialer", fmt.Sprintf("[%s] after 5 requests to an origin the dialer counter forwarder_dialer_cx_total is %v (absent = -1)", ch, dialed), map[string]any{"metrics": lib.Trunc(string(m.Body), 3000)})
+		return false
 	}
 	if ok200 != 5 || inflight != 0 {
 		e.viol("metrics:counts", fmt.Sprintf("[%s] after 5 served GETs and one failed one: requests_total{GET,200}=%v (want 5), in_flight{GET}=%v (want 0)", ch, ok200, inflight), map[string]any{"metrics": lib.Trunc(string(m.Body), 3000)})
@@ -522,12 +578,29 @@ func (e *env) via(ch string) bool {
 		e.viol("via:loop-not-refused", fmt.Sprintf("[%s] a request carrying this instance's own element was answered %v (origin contacted: %v)", ch, m, len(e.origin.Requests()) != before), nil)
 		return false
 	}
+	c.Stop()
+	// rules for CONNECT requests only must leave the Via of other requests alone
+	o = e.base()
+	o["connect-header"] = []string{"-Via"}
+	c2, err := e.child(ch, o, false)
+	if err != nil {
+		e.run.Inconclusive("wiring child: " + err.Error())
+		return false
+	}
+	defer c2.Stop()
+	vid2 := "via2-" + ch
+	do(c2.ProxyAddr, "GET http://origin.test/v HTTP/1.1\r\nHost: origin.test\r\nX-Vid: "+vid2+"\r\n\r\n", "GET")
+	q2 := e.seen(vid2)
+	if q2 == nil || !strings.HasPrefix(q2.Get1("Via"), "1.1 forwarder-") {
+		e.viol("via:stripped-by-connect-rule", fmt.Sprintf("[%s] with --connect-header=-Via a plain request reached the origin with Via %q", ch, q2.Get("Via")), nil)
+		return false
+	}
 	return true
 }
 
 // limits: --read-limit / --write-limit throttle the matching direction of a 6 MiB download.
 func (e *env) limits(ch string) bool {
-	timeDL := func(o map[string][]string) (time.Duration, bool) {
+	timeDL := func(o map[string][]string, ppHeader ...string) (time.Duration, bool) {
 		c, err := e.child(ch, o, false)
 		if err != nil {
 			e.run.Inconclusive("wiring child: " + err.Error())
@@ -540,6 +613,9 @@ func (e *env) limits(ch string) bool {
 		}
 		defer st.Close()
 		t0 := time.Now()
+		for _, h := range ppHeader {
+			st.C.Write([]byte(h))
+		}
 		fmt.Fprintf(st.C, "GET http://origin.test/big HTTP/1.1\r\nHost: origin.test\r\nX-Vid: big\r\n\r\n")
 		m, pst, _ := st.ReadResponse("GET", 60*time.Second)
 		return time.Since(t0), pst == lib.POK && len(m.Body) == 6<<20
@@ -553,9 +629,274 @@ func (e *env) limits(ch string) bool {
 		e.viol("limits:transfer-failed", fmt.Sprintf("[%s] 6 MiB download through the binary failed (control ok=%v, limited ok=%v)", ch, ok0, ok1), nil)
 		return false
 	}
+	o["proxy-protocol-listener"] = []string{"true"}
+	dPP, ok2 := timeDL(o, "PROXY TCP4 198.51.100.7 127.0.0.1 40000 3128\r\n")
+	if !ok2 {
+		e.viol("limits:transfer-failed", fmt.Sprintf("[%s] 6 MiB download through a PROXY-protocol listener with limits failed", ch), nil)
+		return false
+	}
+	if dPP < 1500*time.Millisecond {
+		e.viol("limits:not-applied:proxy-protocol-listener", fmt.Sprintf("[%s] with --proxy-protocol-listener --read-limit 1M --write-limit 1M a 6 MiB download took %.2f s; burst 4 MiB + 1 MiB/s allows it no sooner than ~2 s", ch, dPP.Seconds()), nil)
+		return false
+	}
 	// burst 4 MiB + 1 MiB/s: 6 MiB cannot arrive in less than (6-4) s minus slack
 	if dLim < 1500*time.Millisecond {
 		e.viol("limits:not-applied", fmt.Sprintf("[%s] with --read-limit 1M --write-limit 1M a 6 MiB download took %.2f s (control without limits %.2f s); burst 4 MiB + 1 MiB/s allows it no sooner than ~2 s", ch, dLim.Seconds(), dCtl.Seconds()), nil)
+		return false
+	}
+	return true
+}
+
+// headerRules: --header applies to requests, --connect-header to CONNECT only, whatever came before.
+func (e *env) headerRules(ch string) bool {
+	o := e.base()
+	o["header"] = []string{"X-Req-Rule: r"}
+	o["connect-header"] = []string{"X-Conn-Rule: c"}
+	c, err := e.child(ch, o, false)
+	if err != nil {
+		e.run.Inconclusive("wiring child: " + err.Error())
+		return false
+	}
+	defer c.Stop()
+	get := func(k int) bool {
+		vid := fmt.Sprintf("hr-%s-%d", ch, k)
+		do(c.ProxyAddr, "GET http://origin.test/h HTTP/1.1\r\nHost: origin.test\r\nX-Vid: "+vid+"\r\n\r\n", "GET")
+		q := e.seen(vid)
+		if q == nil || len(q.Get("X-Req-Rule")) != 1 || q.Get1("X-Req-Rule") != "r" || q.Has("X-Conn-Rule") {
+			e.viol("header-rules:request", fmt.Sprintf("[%s] plain request #%d: --header rules must apply and --connect-header rules must not, the origin saw %+v", ch, k, q), nil)
+			return false
+		}
+		return true
+	}
+	if !get(1) {
+		return false
+	}
+	st, err := lib.Dial(c.ProxyAddr)
+	if err == nil {
+		fmt.Fprintf(st.C, "CONNECT origin.test:80 HTTP/1.1\r\nHost: origin.test:80\r\n\r\n")
+		st.ReadResponse("CONNECT", 10*time.Second)
+		st.Close()
+	}
+	return get(2) && get(3)
+}
+
+// eventStream: an event stream is forwarded event by event, also when another module logs bodies.
+func (e *env) eventStream(ch string) bool {
+	o := e.base()
+	o["log-http"] = []string{"proxy:headers", "api:body"}
+	c, err := e.child(ch, o, false)
+	if err != nil {
+		e.run.Inconclusive("wiring child: " + err.Error())
+		return false
+	}
+	defer c.Stop()
+	for len(e.gate) > 0 {
+		<-e.gate
+	}
+	st, err := lib.Dial(c.ProxyAddr)
+	if err != nil {
+		return false
+	}
+	defer st.Close()
+	fmt.Fprintf(st.C, "GET http://origin.test/sse HTTP/1.1\r\nHost: origin.test\r\nX-Vid: sse-%s\r\n\r\n", ch)
+	t0 := time.Now()
+	for !bytes.Contains(st.All.Bytes(), []byte("EVENT-ONE")) {
+		if _, err := st.ReadN(len(st.Buffered())+1, time.Until(t0.Add(5*time.Second))); err != nil {
+			e.gate <- struct{}{}
+			e.viol("event-stream:not-incremental", fmt.Sprintf("[%s] with --log-http proxy:headers,api:body the first event of a stream was not delivered within 5 s (the origin sends the second one only after the client has the first): client received %q", ch, lib.Trunc(st.All.String(), 300)), nil)
+			return false
+		}
+	}
+	e.gate <- struct{}{}
+	for !bytes.Contains(st.All.Bytes(), []byte("EVENT-TWO")) {
+		if _, err := st.ReadN(len(st.Buffered())+1, 5*time.Second); err != nil {
+			e.viol("event-stream:lost", fmt.Sprintf("[%s] second event not delivered: %q", ch, lib.Trunc(st.All.String(), 300)), nil)
+			return false
+		}
+	}
+	return true
+}
+
+// tunnelOutlivesHeaderTimeout: --read-header-timeout concerns request heads, not tunnels.
+func (e *env) tunnelOutlivesHeaderTimeout(ch string) bool {
+	o := e.base()
+	o["read-header-timeout"] = []string{"1s"}
+	c, err := e.child(ch, o, false)
+	if err != nil {
+		e.run.Inconclusive("wiring child: " + err.Error())
+		return false
+	}
+	defer c.Stop()
+	st, err := lib.Dial(c.ProxyAddr)
+	if err != nil {
+		return false
+	}
+	defer st.Close()
+	fmt.Fprintf(st.C, "CONNECT origin.test:80 HTTP/1.1\r\nHost: origin.test:80\r\n\r\n")
+	if r, pst, _ := st.ReadResponse("CONNECT", 10*time.Second); pst != lib.POK || r.Status != 200 {
+		e.viol("tunnel:connect", fmt.Sprintf("[%s] CONNECT answered %v", ch, r), nil)
+		return false
+	}
+	for k := 0; k < 2; k++ {
+		time.Sleep(1300 * time.Millisecond)
+		fmt.Fprintf(st.C, "GET /late%d HTTP/1.1\r\nHost: origin.test\r\nX-Vid: late-%s-%d\r\n\r\n", k, ch, k)
+		if r, pst, _ := st.ReadResponse("GET", 8*time.Second); pst != lib.POK || r.Get1("X-Vid") != fmt.Sprintf("late-%s-%d", ch, k) {
+			e.viol("tunnel:cut-by-read-header-timeout", fmt.Sprintf("[%s] with --read-header-timeout 1s a tunnel stopped relaying %.1f s after it was opened: %v", ch, 1.3*float64(k+1), r), nil)
+			return false
+		}
+	}
+	return true
+}
+
+// timeFrame: --allow-time-frame refuses with 451 outside the frames, also when every frame is empty.
+func (e *env) timeFrame(ch string) bool {
+	ok := true
+	for _, t := range []struct {
+		name   string
+		frames []string
+		want   int
+	}{
+		{"only-empty-frames", []string{"sun/0-0", "mon/9-9", "tue/9-9", "wed/12-12", "thu/9-9", "fri/17-17", "sat/24-24"}, 451},
+		{"whole-week", []string{"sun/0-24", "mon/0-24", "tue/0-24", "wed/0-24", "thu/0-24", "fri/0-24", "sat/0-24"}, 200},
+	} {
+		o := e.base()
+		o["allow-time-frame"] = t.frames
+		c, err := e.child(ch, o, false)
+		if err != nil {
+			e.run.Inconclusive("wiring child: " + err.Error())
+			return false
+		}
+		vid := fmt.Sprintf("tf-%s-%s", ch, t.name)
+		m, got := do(c.ProxyAddr, "GET http://origin.test/t HTTP/1.1\r\nHost: origin.test\r\nX-Vid: "+vid+"\r\n\r\n", "GET")
+		m2, got2 := do(c.ProxyAddr, "CONNECT origin.test:80 HTTP/1.1\r\nHost: origin.test:80\r\n\r\n", "CONNECT")
+		if !got || m.Status != t.want || !got2 || m2.Status != t.want || (t.want == 451) != (e.seen(vid) == nil) {
+			e.viol("time-frame:"+t.name, fmt.Sprintf("[%s] --allow-time-frame %v: want %d for GET and CONNECT (origin contacted only on 200), got %v and %v, origin saw the GET: %v", ch, t.frames, t.want, m, m2, e.seen(vid) != nil), nil)
+			ok = false
+		}
+		c.Stop()
+	}
+	return ok
+}
+
+// pacConcurrent: many clients at once through a PAC script that takes a moment to evaluate.
+func (e *env) pacConcurrent(ch string) bool {
+	up := lib.MustOrigin("U", "127.0.0.1:0", nil, func(oc *lib.OConn, req *lib.Msg) lib.Action {
+		oc.Write(lib.SimpleResponse(200, "OK", []lib.Field{{"X-Vid", req.Get1("X-Vid")}, {"X-Peer", "U"}}, []byte("ok")))
+		return lib.Continue
+	})
+	defer up.Close()
+	pac := filepath.Join(e.run.Work, "wiring-conc-"+ch+".pac")
+	os.WriteFile(pac, []byte(`function FindProxyForURL(url, host) {
+  var x = 0; for (var i = 0; i < 30000; i++) { x += i % 7; }
+  if (shExpMatch(host, "origin.*")) return "PROXY `+up.Addr+`";
+  return "DIRECT";
+}`), 0o644)
+	o := e.base()
+	o["pac"] = []string{pac}
+	c, err := e.child(ch, o, false)
+	if err != nil {
+		e.run.Inconclusive("wiring child (pac): " + err.Error())
+		return false
+	}
+	defer c.Stop()
+	var bad atomic.Int64
+	var first atomic.Value
+	done := make(chan struct{})
+	const workers, each = 16, 12
+	for w := 0; w < workers; w++ {
+		go func(w int) {
+			defer func() { done <- struct{}{} }()
+			for k := 0; k < each; k++ {
+				host, want := "origin.test", "U"
+				if (w+k)%2 == 0 {
+					host, want = "direct.test", "O"
+				}
+				m, got := do(c.ProxyAddr, fmt.Sprintf("GET http://%s/c HTTP/1.1\r\nHost: %s\r\nX-Vid: pc-%d-%d\r\n\r\n", host, host, w, k), "GET")
+				if !got || m.Status != 200 || m.Get1("X-Peer") != want {
+					bad.Add(1)
+					first.CompareAndSwap(nil, fmt.Sprintf("%s must be answered by %s, got %v", host, want, m))
+				}
+			}
+		}(w)
+	}
+	for w := 0; w < workers; w++ {
+		<-done
+	}
+	if n := bad.Load(); n > 0 || !c.Alive() {
+		e.viol("pac:concurrent-evaluation", fmt.Sprintf("[%s] %d of %d concurrent requests through a PAC script were not routed as the script says (process alive: %v); first: %v", ch, n, workers*each, c.Alive(), first.Load()), nil)
+		return false
+	}
+	return true
+}
+
+// proxyProtocolTimeout: the PROXY header timeout is its own limit, whatever the request head limit is.
+func (e *env) proxyProtocolTimeout(ch string) bool {
+	o := e.base()
+	o["proxy-protocol-listener"] = []string{"true"}
+	o["proxy-protocol-read-header-timeout"] = []string{"1s"}
+	o["read-header-timeout"] = []string{"0s"}
+	c, err := e.child(ch, o, false)
+	if err != nil {
+		e.run.Inconclusive("wiring child: " + err.Error())
+		return false
+	}
+	defer c.Stop()
+	for _, part := range []string{"", "PROXY TCP4 1.2.3"} {
+		cn, err := net.DialTimeout("tcp", c.ProxyAddr, 5*time.Second)
+		if err != nil {
+			return false
+		}
+		t0 := time.Now()
+		cn.Write([]byte(part))
+		cn.SetReadDeadline(time.Now().Add(5 * time.Second))
+		_, rerr := cn.Read(make([]byte, 1))
+		el := time.Since(t0)
+		cn.Close()
+		if ne, isNet := rerr.(net.Error); isNet && ne.Timeout() {
+			e.viol("proxy-protocol:header-timeout-not-applied", fmt.Sprintf("[%s] --proxy-protocol-read-header-timeout 1s with --read-header-timeout 0s: a peer that stalled after %q was still connected after 5 s", ch, part), nil)
+			return false
+		}
+		if el < 900*time.Millisecond {
+			e.viol("proxy-protocol:closed-early", fmt.Sprintf("[%s] stalled PROXY header closed after %.2f s, limit 1 s", ch, el.Seconds()), nil)
+			return false
+		}
+	}
+	return true
+}
+
+// shutdownTimeout: the configured drain time bounds how long the process waits for an exchange.
+func (e *env) shutdownTimeout(ch string) bool {
+	o := e.base()
+	o["shutdown-timeout"] = []string{"1s"}
+	c, err := e.child(ch, o, false)
+	if err != nil {
+		e.run.Inconclusive("wiring child: " + err.Error())
+		return false
+	}
+	st, err := lib.Dial(c.ProxyAddr)
+	if err != nil {
+		c.Stop()
+		return false
+	}
+	defer st.Close()
+	vid := "st-" + ch
+	fmt.Fprintf(st.C, "GET http://origin.test/hold5 HTTP/1.1\r\nHost: origin.test\r\nX-Vid: %s\r\n\r\n", vid)
+	for t := time.Now(); e.seen(vid) == nil && time.Since(t) < 5*time.Second; time.Sleep(2 * time.Millisecond) {
+	}
+	t0 := time.Now()
+	c.Cmd.Process.Signal(syscall.SIGTERM)
+	for c.Alive() && time.Since(t0) < 4*time.Second {
+		time.Sleep(10 * time.Millisecond)
+	}
+	el := time.Since(t0)
+	alive := c.Alive()
+	c.Kill()
+	if alive {
+		e.viol("shutdown-timeout:not-honoured", fmt.Sprintf("[%s] --shutdown-timeout 1s: 4 s after SIGTERM the process is still waiting for an exchange whose origin needs 5 s", ch), nil)
+		return false
+	}
+	if el < 800*time.Millisecond {
+		e.viol("shutdown-timeout:exit-too-early", fmt.Sprintf("[%s] the process exited %.2f s after SIGTERM although an exchange was in flight and the drain time is 1 s", ch, el.Seconds()), nil)
 		return false
 	}
 	return true
